@@ -18,7 +18,10 @@ import (
 )
 
 // retry: one request through the real proxy against scripted per-attempt backend outcomes.
-// op:   H:<hosts> C:<conns> W:<warm-up requests> K:<kind> D:<down hosts|-> X:<outcome>...
+// op:   H:<hosts> C:<conns> W:<warm-up requests> K:<kind> D:<down hosts|-> [Z:<host whose first connection is lost>] X:<outcome>...
+//       outcome suffix +w / +t / +p: the error frame carries warnings / a tracing id / a custom payload
+//       outcome idle: the backend stops answering on that connection, heart-beats included (the proxy's idle
+//       timeout closes it)
 // real: att:<host,...> prep:<host,...> reply:<class>
 
 func init() { streams["retry"] = stream{gen: genRetry, run: runRetry} }
@@ -85,6 +88,7 @@ func runRetry(op string) (out string) {
 	hosts, conns, warm, kind := 1, 1, 0, "qi"
 	var down []int
 	var script []string
+	zhost := -1
 	for _, t := range strings.Fields(op) {
 		k, v := t[:1], t[2:]
 		switch k {
@@ -105,9 +109,21 @@ func runRetry(op string) (out string) {
 			}
 		case "X":
 			script = append(script, v)
+		case "Z":
+			zhost, _ = strconv.Atoi(v)
 		}
 	}
-	env, err := e2e.Start(e2e.Options{Hosts: hosts, NumConns: conns, IdempotentGraph: kind == "gi"})
+	eopts := e2e.Options{Hosts: hosts, NumConns: conns, IdempotentGraph: kind == "gi"}
+	for _, x := range script {
+		if x == "idle" { // heart-beats fast enough for the idle timeout to act within the case
+			// (a heart-beat in progress delays the idle check by up to the connect timeout)
+			eopts.HeartBeat, eopts.IdleTimeout, eopts.ConnectTimeout = 40*time.Millisecond, 200*time.Millisecond, 150*time.Millisecond
+		}
+	}
+	if zhost >= 0 {
+		eopts.ReconnectBase, eopts.ReconnectMax = 30*time.Second, 30*time.Second
+	}
+	env, err := e2e.Start(eopts)
 	if err != nil {
 		return "env-error:" + err.Error()
 	}
@@ -120,6 +136,15 @@ func runRetry(op string) (out string) {
 	}
 	var mu sync.Mutex
 	measured := false
+	muted := map[*fakecass.Conn]bool{}
+	env.Cluster.OptionsHandler = func(c *fakecass.Conn, h *frame.Header) (fakecass.Response, bool) {
+		mu.Lock()
+		defer mu.Unlock()
+		if muted[c] {
+			return fakecass.Response{Kind: fakecass.RespSilent}, true
+		}
+		return fakecass.Response{}, false
+	}
 	var att, prep []string
 	pos := 0
 	var reprep []string // queued outcomes for re-prepare PREPAREs
@@ -159,7 +184,26 @@ func runRetry(op string) (out string) {
 		}
 		tag := fmt.Sprintf("backend#%d", pos)
 		pos++
+		flagged := ""
+		if i := strings.IndexByte(tok, '+'); i > 0 {
+			tok, flagged = tok[:i], tok[i+1:]
+		}
+		withFlags := func(r fakecass.Response) fakecass.Response {
+			switch flagged {
+			case "w":
+				r.Warnings = []string{"a warning"}
+			case "t":
+				id := primitive.UUID{1, 2, 3}
+				r.TracingId = &id
+			case "p":
+				r.CustomPayload = map[string][]byte{"k": {1}}
+			}
+			return r
+		}
 		switch {
+		case tok == "idle":
+			muted[rq.Conn] = true
+			return fakecass.Response{Kind: fakecass.RespSilent}
 		case tok == "ok":
 			return fakecass.Response{Kind: fakecass.RespMsg, Msg: &message.VoidResult{}}
 		case tok == "drop":
@@ -178,7 +222,7 @@ func runRetry(op string) (out string) {
 		case tok == "ue": // UNPREPARED for an id the proxy has no cached PREPARE for
 			return fakecass.Response{Kind: fakecass.RespMsg, Msg: &message.Unprepared{ErrorMessage: tag, Id: []byte("0123456789abcdef")}}
 		}
-		return fakecass.Response{Kind: fakecass.RespMsg, Msg: errFor(tok, tag)}
+		return withFlags(fakecass.Response{Kind: fakecass.RespMsg, Msg: errFor(tok, tag)})
 	}
 	cl, err := env.Dial(primitive.ProtocolVersion4, "")
 	if err != nil {
@@ -243,6 +287,14 @@ func runRetry(op string) (out string) {
 		msg = &message.Batch{Type: primitive.BatchTypeLogged, Consistency: primitive.ConsistencyLevelQuorum, Children: []*message.BatchChild{{Id: pid(stmtIdem)}, {Id: pid(stmtNonIdem)}}}
 	case "bu":
 		msg = &message.Batch{Type: primitive.BatchTypeLogged, Consistency: primitive.ConsistencyLevelQuorum, Children: []*message.BatchChild{{Query: stmtIdem}, {Id: pid("never prepared")}}}
+	case "gs": // a graph request whose text starts like a SELECT (graph requests are not idempotent unless configured so)
+		msg = &message.Query{Query: "SELECT v FROM ks.t WHERE k = 1", Options: opts}
+		mod = func(f *frame.Frame) { f.SetCustomPayload(map[string][]byte{"graph-source": []byte("g")}) }
+	case "ge": // a graph EXECUTE of a prepared SELECT
+		prepare(stmtSelect)
+		nprep = 1
+		msg = &message.Execute{QueryId: pid(stmtSelect), Options: opts}
+		mod = func(f *frame.Frame) { f.SetCustomPayload(map[string][]byte{"graph-source": []byte("g")}) }
 	case "gi", "gn":
 		msg = &message.Query{Query: "g.V().drop()", Options: opts}
 		mod = func(f *frame.Frame) { f.SetCustomPayload(map[string][]byte{"graph-source": []byte("g")}) }
@@ -261,6 +313,20 @@ func runRetry(op string) (out string) {
 	}
 	if len(down) > 0 {
 		time.Sleep(30 * time.Millisecond) // let the pool slots observe the closed connections
+	}
+	if zhost >= 0 && zhost < len(ips) {
+		// the first connection of that host's pool is lost (its slot waits for the reconnect delay); the others stay
+		cs := env.Cluster.Node(ips[zhost]).Conns()
+		var data []*fakecass.Conn
+		for _, c := range cs {
+			if !c.Registered() {
+				data = append(data, c)
+			}
+		}
+		if len(data) > 0 {
+			data[0].Close()
+			time.Sleep(30 * time.Millisecond)
+		}
 	}
 	mu.Lock()
 	measured = true
@@ -303,7 +369,7 @@ func runRetry(op string) (out string) {
 
 var retryOutcomes = []string{"ok", "ok", "rt:2:2:0", "rt:1:2:0", "rt:2:2:1", "rt:3:2:0", "wt:BATCH_LOG", "wt:SIMPLE", "wt:BATCH", "wt:CAS", "wt:COUNTER", "wt:UNLOGGED_BATCH",
 	"un", "un", "bs", "bs", "se", "ov", "tr", "rf", "wf", "inv", "syn", "unauth", "cfg", "ae", "ff", "drop", "drop", "drop", "ue", "pe"}
-var retryKinds = []string{"qi", "qn", "qu", "qs", "qc", "ei", "en", "eu", "bi", "bn", "bp", "bq", "bu", "gi", "gn"}
+var retryKinds = []string{"qi", "qn", "qu", "qs", "qc", "ei", "en", "eu", "bi", "bn", "bp", "bq", "bu", "gi", "gn", "gs", "ge"}
 
 func genRetry(e *emitter, r *rng.R, n int, tier string) {
 	corpus := []string{
@@ -319,6 +385,15 @@ func genRetry(e *emitter, r *rng.R, n int, tier string) {
 		"H:2 C:1 W:0 K:eu D:- X:se",
 		"H:3 C:1 W:0 K:gn D:- X:se",
 		"H:3 C:1 W:0 K:gi D:- X:se X:ok",
+		"H:3 C:1 W:0 K:gs D:- X:se X:ok",
+		"H:3 C:1 W:0 K:ge D:- X:ov X:ok",
+		"H:3 C:1 W:0 K:qi D:- X:ov+w X:se+t X:ok",
+		"H:3 C:1 W:0 K:qi D:- X:un+p X:ok",
+		"H:2 C:1 W:0 K:qi D:- X:idle X:ok",
+		"H:2 C:1 W:0 K:qn D:- X:idle",
+		"H:3 C:2 W:0 K:qi D:- Z:0 X:ok",
+		"H:2 C:2 W:1 K:qi D:- Z:1 X:se X:ok",
+		"H:1 C:2 W:0 K:qn D:- Z:0 X:ok",
 	}
 	ops := append([]string{}, corpus...)
 	defer func() { e.emitAll(ops, 12) }()
@@ -348,8 +423,15 @@ func genRetry(e *emitter, r *rng.R, n int, tier string) {
 			}
 			if (kind[0] == 'e') && rr.Chance(1, 6) {
 				o = "up:" + rr.Pick([]string{"ok", "ok", "err", "drop"})
+			} else if rr.Chance(1, 7) && o != "ok" && o != "drop" && o != "ue" {
+				o += rr.Pick([]string{"+w", "+t", "+p"})
+			} else if rr.Chance(1, 25) {
+				o = "idle"
 			}
 			parts = append(parts, "X:"+o)
+		}
+		if c == 2 && rr.Chance(1, 5) {
+			parts = append(parts[:5], append([]string{fmt.Sprintf("Z:%d", rr.Intn(h))}, parts[5:]...)...)
 		}
 		ops = append(ops, strings.Join(parts, " "))
 	}
